@@ -1195,3 +1195,69 @@ def check_stack_field_release(chk, prog, unit, push_fn="spifconf_register_fstate
                       "the entry: the block is lost every time such an entry is popped" % (f0.name, X.render(c0["ch"][1:][[k_ for k_, v_ in field_of.items() if v_ == fld][0]])[:30], fld, table, fld),
                proof="released before the pop in %s" % (where.name if where else "?"))
     return n
+
+
+def check_discarded_lines(chk, unit, rule="P7"):
+    """Only a line that did not fit is discarded.  Where a line reader throws the rest of a line away (a loop that keeps calling
+    fgets into the same buffer until a newline turns up), the test that sends it there must also establish that the text read so
+    far is not simply the last line of a file that lacks a final newline: it consults end-of-file (feof) or the fill of the
+    buffer (strlen against the size).  `!strchr(buff, '\\n')` alone is also true for that last line, which is then reported
+    as too long and never delivered."""
+    from .listrules import unit_closure
+    n = 0
+    for f in unit.functions.values():
+        if f.body is None:
+            continue
+
+        def fgets_buffers(e):
+            return {canon(f, c["ch"][1]) for c in X.calls_in(e) if X.callee_name(c) in ("fgets", "__fgets_chk", "__builtin___fgets_chk") and c["ch"][1:]}
+
+        def discards(stmt, depth=0):
+            """does the statement contain a loop whose condition reads on with fgets (directly or in a unit-local helper)?"""
+            for x in walk(stmt):
+                if x.get("k") in ("for", "while", "do") and x.get("cond") is not None and fgets_buffers(x["cond"]):
+                    body = x.get("body")
+                    if body is None or body.get("k") == "null" or not any(y.get("k") in ("call", "assign") for y in walk(body)):
+                        return True
+                if x.get("k") == "call" and depth < 2:
+                    g = unit.functions.get(X.callee_name(x) or "")
+                    if g is not None and g is not f and g.body is not None and discards_in(g, depth + 1):
+                        return True
+            return False
+
+        def discards_in(g, depth):
+            for x in walk(g.body):
+                if x.get("k") in ("for", "while", "do") and x.get("cond") is not None and any(
+                        X.callee_name(c) in ("fgets", "__fgets_chk", "__builtin___fgets_chk") for c in X.calls_in(x["cond"])):
+                    body = x.get("body")
+                    if body is None or body.get("k") == "null" or not any(y.get("k") in ("call", "assign") for y in walk(body)):
+                        return True
+            return False
+        if not fgets_buffers(f.body):
+            continue
+        for node in walk(f.body):
+            if node.get("k") != "if":
+                continue
+            arm = None
+            if discards(node["then"]):
+                arm = "then"
+            elif node.get("else") is not None and discards(node["else"]):
+                arm = "else"
+            if arm is None:
+                continue
+            # innermost such if only
+            inner = node["then"] if arm == "then" else node["else"]
+            if any(y is not node and y.get("k") == "if" and (discards(y["then"]) or (y.get("else") is not None and discards(y["else"]))) for y in walk(inner)):
+                continue
+            n += 1
+            cond_calls = {X.callee_name(c) for c in X.calls_in(node["cond"])}
+            # flag locals standing for a condition
+            for y in walk(node["cond"]):
+                if y.get("k") == "ref" and y.get("flagdef") is not None:
+                    cond_calls |= {X.callee_name(c) for c in X.calls_in(y["flagdef"])}
+            ok = bool(cond_calls & {"feof", "feof_unlocked"}) or bool(cond_calls & {"strlen", "__builtin_strlen"})
+            chk.ob(rule, f.name, "discard-only-what-did-not-fit", ok, loc=f.loc(node),
+                   detail="%s discards the rest of a line on `%s` alone: that is also true for the last line of a file without a final "
+                          "newline, which is then reported as too long and never delivered to its handler" % (f.name, X.render(node["cond"])[:50]),
+                   proof="the discarding branch also consults end-of-file / the fill of the buffer")
+    return n
